@@ -74,6 +74,12 @@ impl Parser {
             roots = self.parse_roots();
         }
 
+        // (nothing but a select list: a constant expression to be shown once)
+        let select_list_only = roots.is_empty()
+            && expr.is_none()
+            && grouping_fields.is_empty()
+            && ordering_fields.is_empty();
+
         if roots.is_empty() {
             roots.push(Root::default(root_options));
         }
@@ -91,7 +97,10 @@ impl Parser {
 
         // a query that reads no column of any file needs one row only; aggregates (`count(*)`)
         // read no column either, but have to see every row
+        // (a query that names a place to search or a condition lists the entries it finds:
+        // with or without LIMIT, the same rows)
         if limit == 0
+            && select_list_only
             && fields
                 .iter()
                 .all(|expr| {
